@@ -7,6 +7,7 @@ ordered edge list with repetitions (multigraph).  Nothing here imports solvOR.
   sssp(n, edges, s)              single source distances by n-1 rounds of relaxation over the *pair table*;
                                  None when a negative cycle is reachable from s
   apsp(n, edges, directed)       all pairs by min-plus closure (repeated squaring); None when some closed walk is negative
+  apsp_by_source(...)            the same table as n single-source runs (for sparse graphs with dozens of nodes)
   hops(n, pairs, s)              BFS levels
   msf(n, edges)                  (weight of a minimum spanning forest, number of components)  — Boruvka-free: Prim on a matrix
   spanning_forest_ok(...)        validity of an edge list as a spanning forest of the input multigraph
@@ -87,6 +88,20 @@ def apsp(n, edges, directed=True):
         if any(D[i][i] < 0 for i in range(n)):
             return None
     return D
+
+
+def apsp_by_source(n, edges, directed=True):
+    """Same answer as apsp(), computed as n single-source runs (cheaper on sparse graphs with dozens of nodes).
+    A negative closed walk anywhere is reachable from its own vertices, so some run reports it."""
+    if not directed:
+        edges = list(edges) + [(v, u, w) for u, v, w in edges]
+    rows = []
+    for s in range(n):
+        d = sssp(n, edges, s)
+        if d is None:
+            return None
+        rows.append(d)
+    return rows
 
 
 def hops(n, pairs, s):
@@ -196,15 +211,33 @@ def closure(n, pairs):
     return R
 
 
+def closure_bits(n, pairs):
+    """Same relation as closure(), rows as Python ints (bit v of row u = u reaches v by a walk of length >= 1).
+    Warshall with whole-row unions: O(n^2) big-int operations, so graphs with ~100 nodes cost a millisecond."""
+    R = [0] * n
+    for u, v in pairs:
+        R[u] |= 1 << v
+    for k in range(n):
+        Rk, bit = R[k], 1 << k
+        for i in range(n):
+            if R[i] & bit:
+                R[i] |= Rk
+        # R[k] itself may have grown (k on a cycle) only by bits already in Rk: Rk |= Rk is a no-op
+    return R
+
+
 def scc_of(n, pairs):
     """Set of frozensets: u ~ v iff u == v or (u reaches v and v reaches u)."""
-    R = closure(n, pairs)
-    return {frozenset(v for v in range(n) if v == u or (R[u][v] and R[v][u])) for u in range(n)}
+    R = closure_bits(n, pairs)
+    out = set()
+    for u in range(n):
+        out.add(frozenset(v for v in range(n) if v == u or (R[u] >> v & 1 and R[v] >> u & 1)))
+    return out
 
 
 def acyclic(n, pairs):
-    R = closure(n, pairs)
-    return not any(R[i][i] for i in range(n))
+    R = closure_bits(n, pairs)
+    return not any(R[i] >> i & 1 for i in range(n))
 
 
 # ----------------------------------------------------------------------------- PageRank tolerance
@@ -388,6 +421,7 @@ def selftest():
         for directed in (True, False):
             a, b = apsp(n, edges, directed), _floyd(n, edges, directed)
             assert a == b, ("apsp", n, edges, directed)
+            assert apsp_by_source(n, edges, directed) == a, ("apsp_by_source", n, edges, directed)
         A = apsp(n, edges)
         # single source vs all pairs (only comparable when no negative cycle anywhere) and vs exhaustive simple paths
         for s in range(n):
@@ -415,6 +449,8 @@ def selftest():
         if m <= 9:
             assert msf(n, edges) == _msf_brute(n, edges), ("msf", n, edges)
         # SCC and acyclicity
+        Rb, Rl = closure_bits(n, pairs), closure(n, pairs)
+        assert [[bool(Rb[u] >> v & 1) for v in range(n)] for u in range(n)] == Rl, ("closure_bits", n, pairs)
         assert scc_of(n, pairs) == _kosaraju(n, pairs), ("scc", n, pairs)
         assert acyclic(n, pairs) == _kahn_acyclic(n, pairs), ("acyclic", n, pairs)
         # pagerank iterates: mass is conserved and steps contract by the damping factor in L1
@@ -424,6 +460,24 @@ def selftest():
         s12 = sum(abs(a - b) for a, b in zip(x1, x2))
         s23 = sum(abs(a - b) for a, b in zip(x2, x3))
         assert s23 <= fr(d_) * s12, ("pr-contraction", n, pairs, d_)
+        cases += 1
+    # larger sparse graphs (the 'large-n' family of C12): closure / SCC / acyclicity / hops / all-pairs by source
+    for it in range(40):
+        n = rng.randint(33, 70)
+        perm = list(range(n))
+        rng.shuffle(perm)
+        pairs = [(perm[i - 1 - min(rng.randint(0, 3), i - 1)], perm[i]) for i in range(1, n)]
+        pairs += [(rng.randrange(n), rng.randrange(n)) for _ in range(rng.randint(0, 8))]
+        Rb, Rl = closure_bits(n, pairs), closure(n, pairs)
+        assert [[bool(Rb[u] >> v & 1) for v in range(n)] for u in range(n)] == Rl, ("closure_bits-large", n, pairs)
+        assert scc_of(n, pairs) == _kosaraju(n, pairs), ("scc-large", n, pairs)
+        assert acyclic(n, pairs) == _kahn_acyclic(n, pairs), ("acyclic-large", n, pairs)
+        s0 = perm[0]
+        lev = hops(n, pairs, s0)
+        assert [x is not None for x in lev] == [v == s0 or bool(Rb[s0] >> v & 1) for v in range(n)], ("hops-large", n, pairs)
+        if it < 8:
+            edges = [(u, v, rng.choice(W[:7])) for u, v in pairs]
+            assert apsp_by_source(n, edges) == _floyd(n, edges), ("apsp_by_source-large", n)
         cases += 1
     # spanning_forest_ok: accepts a Kruskal forest, rejects a cycle / foreign edge / missing edge
     for it in range(200):
